@@ -134,42 +134,6 @@ func c07Run(c *Ctx) {
 	c.R.Floor("C07.R1", n, 7)
 }
 
-func mentionsBareAssert(t Term, par types.Object) bool {
-	found := false
-	var walk func(t Term, underProj bool)
-	walk = func(t Term, underProj bool) {
-		switch x := t.(type) {
-		case TAssert:
-			if isParamTerm(x.X, par) && !underProj {
-				// the type-switch binding also yields a bare TAssert, but only on a path where TypeIs already holds; callers check paths, so
-				// this is flagged only when no TypeIs/ok condition is present — handled by the caller's first-condition rule. Not flagged here.
-			}
-			walk(x.X, false)
-		case TProj:
-			walk(x.X, true)
-		case TSel:
-			walk(x.X, false)
-		case TBin:
-			walk(x.X, false)
-			walk(x.Y, false)
-		case TUn:
-			walk(x.X, false)
-		case TCall:
-			if x.Recv != nil {
-				walk(x.Recv, false)
-			}
-			for _, a := range x.Args {
-				walk(a, false)
-			}
-		case TIndex:
-			walk(x.X, false)
-			walk(x.I, false)
-		}
-	}
-	walk(t, false)
-	return found
-}
-
 func c07Scalar(c *Ctx, fd *ast.FuncDecl, name string, t *types.Named, par types.Object, own types.Type, v *sxView, paths []*Path) {
 	ob := c.Ob("C07.R2", name, fd.Pos())
 	st, _ := t.Underlying().(*types.Struct)
